@@ -21,3 +21,21 @@ Theorem C13_code_roundtrip_partial : forall sid doc, sid < 2 ^ 32 -> doc < 2 ^ 3
   dec_pair32 (enc_pair32 sid doc) = (sid, doc) /\ enc_pair32 sid doc < 2 ^ 64.
 Proof. exact pair32_roundtrip. Qed.
 Print Assumptions C13_code_roundtrip_partial.
+
+(* the enumerator that drives the term loop of every dictionary / thesaurus merge (Enum.v mirrors
+   enumerator.go: updateMatches with its lowK / lowIdxs accumulators, Next with skipEmptyKey, the
+   (nil, 0) test for exhausted iterators); tied to the code by the correspondence run through the
+   verif hook VerifEnumerate (real vellum FSTs).  For any number of iterators with strictly
+   ascending keys and no ("", 0) entry, the tuples produced are exactly the entries of the inputs
+   (membership both ways), in strictly ascending (key, iterator index) order - hence each once. *)
+Require ZV.Enum ZV.EnumProof.
+Theorem C13_enumerator_ordered_union : forall its : list (list Enum.kv),
+  List.Forall EnumProof.asc its -> EnumProof.nozero its ->
+  EnumProof.sorted_t (Enum.enumerate its) /\
+  (forall k i v, List.In (k, i, v) (Enum.enumerate its) <-> exists l, List.nth_error its i = Some l /\ List.In (k, v) l).
+Proof. exact EnumProof.enumerate_spec. Qed.
+Print Assumptions C13_enumerator_ordered_union.
+
+Theorem C13_enumerator_each_once : forall l, EnumProof.sorted_t l -> List.NoDup l.
+Proof. exact EnumProof.sorted_t_nodup. Qed.
+Print Assumptions C13_enumerator_each_once.
